@@ -137,7 +137,9 @@ func (st *State) load(p *PtrV) Val {
 	}
 	v := st.loadKey(p.Kind, p.Key, p.Base, p.Idx, p.Elem, nil)
 	if p.Kind == PHeap && p.Idx != nil && isWireMessagePtr(p.Elem) {
-		if t, ok := v.(*Term); ok && t.Sort.Kind == SInt && len(freeBound(t)) == 0 {
+		if t, ok := v.(*Term); ok && t.Sort.Kind == SInt && len(freeBound(t)) == 0 && !st.vc.isOwnAlloc(p.Base) {
+			// only for arrays the function did not allocate itself (decoded input): a slice the function has just
+			// made holds nil elements until they are assigned
 			st.vc.assume(st, Not(Eq(t, IntC(0))))
 			st.vc.used["protobuf: repeated message fields decoded from the wire contain no nil elements"] = true
 		}
